@@ -97,8 +97,8 @@ def stateName : RunState → List B
 
 /-- observation of the `start` verb -/
 def observeStart (prog : List Instr) (globals : List Name) (maxRuntime : Nat) (maxLoops : Nat := 10000)
-    (age : Nat := 0) : List B :=
-  let m0 : M := { maxRuntime := maxRuntime, maxLoops := maxLoops, now := age }
+    (age : Nat := 0) (parse : List B → Option (List Instr) := fun _ => none) : List B :=
+  let m0 : M := { maxRuntime := maxRuntime, maxLoops := maxLoops, now := age, parse := parse }
   let r := start 150 1000000 { ctxs := [{ frames := [{ code := prog }], id := 1 }], m := m0 }
   match r.res with
   | .hang => bytes "timeout"
